@@ -20,6 +20,9 @@ CLAIMED = {
  "C11": ("E2 product (complete)",
          "all lists of length 0..4 (quick) / 0..7 (thorough) and strings of length 0..5 / 0..7 plus multi-byte strings x every index in [-2,len+2] x every bound pair in ([-2,len+2] + omitted)^2 x element assignment x range assignment from lists, strings (ASCII and multi-byte) and the list itself of every length 0..len+1 x all concatenation length pairs x non-integer index kinds; oracle = slice model written from the statement (definedness domain + value) and the laws s[:k]+s[k:]==s, (s+t)[len(s)+i]==t[i] evaluated by the subject",
          "exhaustive enumeration of all sequences/indices/bounds up to a length bound on the real interpreter against a sequence model"),
+ "C14": ("E1 breadth-first history exploration with provenance-state deduplication + E2 product",
+         "all histories of <= 6 (quick) / <= 8 (thorough) operations from 36 operations that attach a function to objects, read it through . / [], move the value through variables, arguments, list elements, returns, destructuring and other objects, and call it; states merged on the (function, provenance) content of every holder; each history completed by calling every holder; plus arity 0..4 x rest x 0..5 arguments x every plain/spread split with printing arguments, parameter-freshness and callee-order programs; oracle = reference model with explicit provenance",
+         "explicit-state breadth-first exploration with canonical-state deduplication on the real interpreter against a reference model"),
  "C16": ("E2 product (complete, finite)",
          "the complete operator x operand matrix over 13 representative values of the 8 kinds (15 binary operators + `..`, 13x13 operands, two spellings), 5 op-assign operators x 4 target forms x 13x13, 45 typed contexts x 13 values; every cell executed on the real interpreter and judged against the table written out from the property statement, cross-checked with the reference model",
          "exhaustive enumeration of a finite product space on the real interpreter against a reference table"),
